@@ -47,6 +47,10 @@ class LinesPass(AbstractPass):
                         check_sanity()
                     except InsaneTestCaseError:
                         pass
+                    except BaseException:
+                        # the check did not complete (interrupt, I/O error): do not leave an unchecked variant behind
+                        shutil.copy(backup.name, test_case)
+                        raise
                     else:
                         return
                 shutil.copy(backup.name, test_case)
